@@ -171,6 +171,22 @@ static void drop(struct Slot* s) {
   s->obj = NULL;
 }
 
+static long scale_len, scale_seen;
+static long __attribute__((noinline)) scale_run(char kind, long n, int reserve) {
+  long bad = 0; scale_len = -1; scale_seen = 0;
+  var t = kind == 'T' ? (var)new_raw(Table, Int, Int) : (var)new_raw(Tree, Int, Int);
+  if (reserve) resize(t, (size_t)n);
+  for (long i = 0; i < n; i++) set(t, $I(i * 7 + 1), $I(i));
+  scale_len = (long)len(t);
+  for (long i = 0; i < n; i += (i < 2000 || i > n - 2000) ? 1 : 4099) { if (!mem(t, $I(i * 7 + 1)) || c_int(get(t, $I(i * 7 + 1))) != i) bad++; if (mem(t, $I(i * 7 + 2))) bad++; }
+  foreach (k in t) { scale_seen++; }
+  for (long i = 0; i < n && i < 5000; i += 2) rem(t, $I(i * 7 + 1));
+  for (long i = 0; i < n && i < 5000; i++) if ((mem(t, $I(i * 7 + 1)) ? 1 : 0) != (i % 2)) bad++;
+  set(t, $I(-5), $I(5)); if (c_int(get(t, $I(-5))) != 5) bad++;
+  del_raw(t);
+  return bad;
+}
+
 int main(int argc, char** argv) {
   struct Slot objs[MAXO]; memset(objs, 0, sizeof objs);
   if (argc < 2) { fprintf(stderr, "usage: h_map script [out]\n"); return 9; }
@@ -194,6 +210,16 @@ int main(int argc, char** argv) {
       if (cur_exec > 0) { ev_begin("end"); ev_ledger(); ev_int("line", cur_line); ev_end(); led_abandon(); }   /* closes the previous execution */
       cur_exec++;
       ev_begin("reset"); ev_ledger(); ev_int("line", cur_line); ev_end();
+      continue;
+    }
+    if (hc_is(0, "scale")) {
+      /* scale <T|R> <n> : a map of n Int bindings (beyond the last entry of the library's size table when n > 8.8 million): room
+         reserved first or grown step by step, then every binding checked; only counts are logged */
+      long n = (long)hc_int(2); int reserve = hc_nw > 3 ? (int)hc_int(3) : 0; volatile long bad = 0; volatile long ln = -1, seen = 0;
+      alarm(240);
+      HC_TRY(bad = scale_run(hc_w[1][0], n, reserve));
+      ln = scale_len; seen = scale_seen;
+      ev_begin("scale"); ev_int("n", n); ev_int("len", ln); ev_int("seen", seen); ev_int("bad", bad); ev_str("exc", hc_exc); ev_int("line", cur_line); ev_end();
       continue;
     }
     int o = (int)hc_int(1);
